@@ -275,3 +275,6 @@ UNITS = [
     Unit('ThermochemGroupAdditive.get_SoR_SE', (GD, 'ThermochemGroupAdditive.get_SoR_SE'), se_unit('SoR', 'get_SoR_SE'), replay_se),
     Unit('lemma:standard-error', None, u_lemma_se, kind='lemma'),
 ]
+
+from . import standins
+STANDINS = [standins.c20_se]
